@@ -3,6 +3,7 @@
 package checks
 
 import (
+	"fmt"
 	"os"
 	"encoding/json"
 	"time"
@@ -36,32 +37,63 @@ func c01Scenarios(thorough bool) []histParams {
 	}
 }
 
-func runC01() int {
-	rep := core.NewReport("C01", "model_checking")
+type histCheck struct {
+	prop      string
+	scenarios []histParams
+	depthQ    int
+	depthT    int
+	statesQ   int
+	statesT   int
+	budgetQ   time.Duration
+	budgetT   time.Duration
+	accept    func(v core.Violation) bool
+	rule      string
+	assume    []string
+}
+
+// runHistCheck runs the explicit-state search for every scenario and reports the violations
+// that belong to the property.
+func runHistCheck(hc histCheck) int {
+	rep := core.NewReport(hc.prop, "model_checking")
+	histCheckInto(rep, hc)
+	return rep.Finish()
+}
+
+func histCheckInto(rep *core.Report, hc histCheck) {
 	pool := core.NewPool()
-	depth, maxStates, budget := 5, 60000, 150*time.Second
+	depth, maxStates, budget := hc.depthQ, hc.statesQ, hc.budgetQ
 	if rep.Thorough() {
-		depth, maxStates, budget = 7, 2000000, 25*time.Minute
+		depth, maxStates, budget = hc.depthT, hc.statesT, hc.budgetT
 	}
 	deadline := time.Now().Add(budget)
 	totalS, totalT := 0, 0
-	for _, sc := range c01Scenarios(rep.Thorough()) {
-		sub := core.NewReport("C01", "model_checking")
+	if v, ok := rep.Coverage["states"].(int); ok {
+		totalS = v
+	}
+	if v, ok := rep.Coverage["transitions"].(int); ok {
+		totalT = v
+	}
+	minDepth := -1
+	for si, sc := range hc.scenarios {
+		sub := core.NewReport(hc.prop, "model_checking")
 		init := runHist(sc, nil, false)
 		key := init.key
 		init.w.Close()
 		for _, v := range init.w.viol {
-			rep.AddViolation(v)
+			sub.AddViolation(v)
 		}
-		st := core.BFS(pool, sub, core.BFSOpts{Op: "hist", Params: sc, MaxDepth: depth, MaxStates: maxStates, Deadline: deadline, InitKey: key, Batch: 4})
+		st := core.BFSStats{}
+		if len(init.w.viol) == 0 {
+			st = core.BFS(pool, sub, core.BFSOpts{Op: "hist", Params: sc, MaxDepth: depth, MaxStates: maxStates, Deadline: deadline, InitKey: key, Batch: 4})
+		}
 		totalS += st.States
 		totalT += st.Transitions
 		for _, v := range sub.Violations {
 			if m, ok := v.Witness.(map[string]interface{}); ok {
 				m["scenario"] = sc
 			}
-			if v.Property == "C01" || v.Clause == "panic" {
-				v.Property = "C01"
+			if v.Property == hc.prop || v.Clause == "panic" || v.Clause == "livelock" || (hc.accept != nil && hc.accept(v)) {
+				v.Property = hc.prop
 				rep.AddViolation(v)
 			}
 		}
@@ -69,7 +101,7 @@ func runC01() int {
 			rep.Outcome(o)
 		}
 		for _, s := range sub.Samples {
-			rep.AddSample(s)
+			rep.AddSample(map[string]interface{}{"scenario": si, "history": s})
 		}
 		for _, e := range sub.HarnessErrs {
 			rep.HarnessError("%s", e)
@@ -78,14 +110,26 @@ func runC01() int {
 			rep.Exhaustive = false
 			rep.Coverage["cap_hit"] = sub.Coverage["cap_hit"]
 		}
-		rep.Coverage["depth_completed"] = st.Depth
+		if minDepth < 0 || st.Depth < minDepth {
+			minDepth = st.Depth
+		}
+		rep.Coverage[fmt.Sprintf("scenario_%d_levels", si)] = st.LevelSizes
 	}
+	rep.Coverage["depth_completed"] = minDepth
 	rep.Coverage["states"] = totalS
 	rep.Coverage["transitions"] = totalT
 	rep.Coverage["traces_validated_against_impl"] = totalT
-	rep.Coverage["rule"] = "explicit-state BFS over environment histories of the real Node.Run under the controlled scheduler against peer model P: events {answer oldest / second-oldest outstanding request, extend by 1/2, reorg depth 1/2, ping, tick 250 ms, duplicate last message, clean restart}; from every reached state a fair drain (answers, announcements, pings, clock steps incl. 61 s and 601 s) must converge to P's best chain; in-sync clause checked at every HandleInSync"
-	rep.Assumptions = []string{"peer model P: answers getheaders from the first locator hash on its best chain, serves any block it has, announces best-chain changes with headers after sendheaders, pings", "hist mode merges states that differ only in the phase of polling loops (DESIGN §3.4)"}
-	return rep.Finish()
+	rep.Coverage["rule"] = hc.rule
+	rep.Assumptions = append(rep.Assumptions, hc.assume...)
+}
+
+var peerAssumption = []string{"peer model P: answers getheaders from the first locator hash on its best chain, serves any block it has, announces best-chain changes with headers after sendheaders, pings", "hist mode merges states that differ only in the phase of polling loops (DESIGN §3.4)", "every explored transition is an execution of the implementation (no separate model): traces_validated_against_impl = transitions"}
+
+func runC01() int {
+	return runHistCheck(histCheck{prop: "C01", scenarios: c01Scenarios(false), depthQ: 5, depthT: 7, statesQ: 150000, statesT: 3000000,
+		budgetQ: 150 * time.Second, budgetT: 25 * time.Minute,
+		rule:   "explicit-state BFS over environment histories of the real Node.Run under the controlled scheduler against peer model P: events {answer oldest / second-oldest outstanding request, extend by 1/2/12, reorg depth 1/2, return to the abandoned branch, ping, tick 250 ms, settle (peer answers everything), duplicate last message, clean restart, connection drop}; from every reached state a fair drain (answers, announcements, pings, clock steps incl. 61 s and 601 s) must converge to P's best chain; in-sync clause checked at every HandleInSync",
+		assume: peerAssumption})
 }
 
 // DebugHist prints a trace of one history (developer aid: check.bin debug-hist <scenario#> ev...).
@@ -104,6 +148,27 @@ func DebugHist(args []string) {
 	}
 	if os.Getenv("VERIF_DUMP") != "" {
 		println(r.w.lastDump)
+	}
+	println("key", r.key, "outcome", r.outcome)
+	for _, v := range r.w.viol {
+		println("VIOL", v.Property, v.Clause, "|", v.Class, "|", v.Detail)
+	}
+	r.w.Close()
+}
+
+// DebugHistScenario traces a history for a named scenario set.
+func DebugHistScenario(name string, idx int, args []string) {
+	var sc histParams
+	switch name {
+	case "C03":
+		sc = c03Scenarios()[idx]
+	default:
+		sc = c01Scenarios(true)[idx]
+	}
+	traceOn = true
+	r := runHist(sc, args, sc.Drain)
+	for _, l := range r.w.trace {
+		println(l)
 	}
 	println("key", r.key, "outcome", r.outcome)
 	for _, v := range r.w.viol {
